@@ -29,6 +29,8 @@ def cells_str(cells):
 
 
 def ch(c):
+    if c == 0x20:
+        return "\\s"
     if 0x21 <= c <= 0x7e and chr(c) not in "\\\"#":
         return chr(c)
     return "\\x%04x" % c
@@ -64,6 +66,51 @@ def _cells(rng, w, n=None, lo=1, hi=3, eight=False):
 def _word(rng, w, lo=1, hi=4, pool=None):
     pool = pool or w.letters
     return [rng.choice(pool) for _ in range(rng.randint(lo, hi))]
+
+
+def _pattern(rng, w, before, depth=0):
+    """a match pre-/post-pattern: literals, attribute tests, groups, alternation, quantifiers (also around
+    sub-patterns that can match the empty string), anchors"""
+    if depth == 0 and rng.random() < 0.2:
+        return "-"
+
+    def atom(d):
+        r = rng.random()
+        if r < 0.3:
+            return chs(_word(rng, w, 1, 1))
+        if r < 0.55:
+            return rng.choice(["%a", "%#", "%l", "%u", "%_", "%.", "%[al]", "%[a#]", "%[_.]", "%<", "%>"])
+        if r < 0.62:
+            return "!" + rng.choice(["%a", "%#", chs(_word(rng, w, 1, 1))])
+        if r < 0.67:
+            return "."
+        if d < 2:
+            inner = seq(d + 1)
+            if rng.random() < 0.4:
+                inner += "|" + seq(d + 1)
+            return "(" + inner + ")"
+        return "%a"
+
+    def seq(d):
+        out = ""
+        for _ in range(rng.randint(1, 2)):
+            a = atom(d)
+            q = rng.random()
+            if q < 0.2:
+                a += "*"
+            elif q < 0.3:
+                a += "+"
+            elif q < 0.45:
+                a += "?"
+                if rng.random() < 0.3:
+                    a = "(" + a + ")" + rng.choice(["*", "+"])       # a loop whose body can match nothing
+            out += a
+        return out
+
+    body = seq(depth)
+    if rng.random() < 0.15:
+        body = ("^" + body) if before else (body + "$")
+    return body
 
 
 def gen(rng, want=None):
@@ -203,11 +250,37 @@ def gen(rng, want=None):
         L.append("begcomp %s" % cells_str(_cells(rng, w, lo=1, hi=3)))
         L.append("endcomp %s" % cells_str(_cells(rng, w, lo=1, hi=3)))
         s = _word(rng, w, 1, 3, allc)
-        L.append("compbrl %s" % chs(s))
+        if rng.random() < 0.2:
+            s = [0x20] + s                  # a computer braille string with a blank in it
+        L.append("compbrl %s" % chs(s).replace(" ", "\\s"))
         w.triggers.append(_word(rng, w, 0, 2) + s + _word(rng, w, 0, 2))
         if rng.random() < 0.5:
             c = rng.choice(allc)
             L.append("comp6 %s %s" % (ch(c), cells_str(_cells(rng, w, lo=1, hi=3))))
+    if feat("seq", 0.3):
+        L.append("seqdelimiter %s" % chs(rng.sample(w.puncts, 1)))
+        if rng.random() < 0.5:
+            L.append("seqbeforechars %s" % chs(rng.sample(w.puncts, 1)))
+        if rng.random() < 0.5:
+            L.append("seqafterchars %s" % chs(rng.sample(w.puncts, 1)))
+        if rng.random() < 0.3:
+            L.append("seqafterpattern %s" % chs(_word(rng, w, 1, 2)))
+        d0 = w.puncts[0]
+        w.triggers.append(_word(rng, w, 1, 2) + [rng.choice(w.puncts)] + _word(rng, w, 1, 3))
+    if feat("basechain", 0.25) and w.uppers:
+        # characters based on characters that are themselves based on others
+        lo = rng.choice(sorted(w.uppers))
+        up = w.uppers[lo]
+        L.append("attribute accent %s" % chs([0x00e0]))
+        L.append("attribute accenttwo %s" % chs([0x00e2]))
+        w.classes += ["accent", "accenttwo"]
+        L.append("base accent \\x00c9 %s" % ch(up))
+        L.append("base accenttwo \\x00eb %s" % ch(rng.choice([lo, up])))
+        if rng.random() < 0.5:
+            L.append("base accent \\x00ea \\x00eb")
+        w.cell[0xc9] = w.cell[0xeb] = w.cell[0xea] = w.cell[lo]
+        w.triggers.append([0xc9, lo, 0xeb])
+        w.triggers.append([up, 0xea, 0xc9])
     if feat("undefined", 0.3):
         L.append("undefined %s" % cells_str(_cells(rng, w, lo=1, hi=3)))
     if feat("capsnocont", 0.1):
@@ -299,8 +372,8 @@ def gen(rng, want=None):
     if feat("match", 0.3):
         for _ in range(rng.randint(1, 2)):
             s = _word(rng, w, 1, 3)
-            pre = rng.choice(["-", "^", "%a", "%[al]", "!%a", "%a*", "%<*", chs(_word(rng, w, 1, 1)), "%a+", "(%a|%#)"])
-            post = rng.choice(["-", "$", "%a", "%[a#]", "!%a", "%a*", "%>*", chs(_word(rng, w, 1, 1)), "%a?", "%_"])
+            pre = _pattern(rng, w, True)
+            post = _pattern(rng, w, False)
             L.append("%smatch %s %s %s %s" % (rng.choice(["", "noback ", "nofor "]), pre, chs(s), post, cells_str(_cells(rng, w, lo=1, hi=3))))
             w.triggers.append(_word(rng, w, 0, 2) + s + _word(rng, w, 0, 2))
             w.triggers.append(s)
@@ -356,6 +429,18 @@ def gen(rng, want=None):
             items += inner
             if br:
                 items.append("]")
+            if rng.random() < 0.15:
+                # look-ahead search: the operands after '/' are searched for from here on
+                items.append("/")
+                r = rng.random()
+                if r < 0.5:
+                    items.append(lit(tc, rng.randint(1, 2)))
+                elif r < 0.75:
+                    items.append(attr())
+                elif w.swaps and ((w.swaps[0][1] == "dd") != tc):
+                    items.append("%swa")
+                else:
+                    items.append(lit(tc, 1) + rng.choice(["~", "`", ""]))
             for _k in range(rng.randint(0, 1)):
                 items.append(lit(tc, rng.randint(1, 2)) if rng.random() < 0.7 else attr())
             if rng.random() < 0.08:
